@@ -34,7 +34,8 @@ func checkC01(w *World, r *Report, tier string) propMeta {
 	r.rule("C01.R8", "presence bits of a filter section select the same filter in the encoder and the parser (shared with C17.R1): a filter decoded into another slot prunes rows that an absent filter must let through", 3)
 	filterFlagTables(w, r, "C01.R8")
 	c03R6(w, r, "C01.R9")
-	c03R4(w, r) // entry sets never alias a pooled buffer: a necessary condition for the filters to contain what was written
+	c02R7(w, r, "C01.R10") // no query rewrites the block list the MetaStore holds: later queries would never see the overwritten blocks
+	c03R4(w, r)            // entry sets never alias a pooled buffer: a necessary condition for the filters to contain what was written
 	return propMeta{
 		explanation: fmt.Sprintf("Six structural necessary conditions of 'no false negatives': (R1) one walker, one canonicaliser — pathWalker.walk is called only by indexing and by row verification, both read leaf text through leafTokenInput, neither reaches the reference enumerator, entry sets are written only by indexRow/addFieldToken/unionInto and every filter is built by buildSizedBloomFilter; (R2) the tokenisation siblings agree — both sides gate the fast path on isBasicWhitespaceLowerTokenizer of the same configured tokenizer, use the same forEachWord/appendFoldedWord pair, call the configured tokenizer on the same text otherwise, and use the same delimiter; (R3) prune ≥ row: for every small bloom tree (depth ≤ 2) and every truth assignment of its leaves the pruning verdict (evaluateBloomExpression with filters answering the assignment) is true whenever the row verdict (compileBloomExpression + evalMatcherNode) is, absent filters fail open, and the regex field guard is at least as permissive as the compiled regex matcher — %d cases by abstract interpretation; (R4) the regex guard is a field-existence test on the condition's own path; (R5) pruning points prune only on a negative filter verdict or a recorded error, and a filter section that is not in the chunk just read is an error, never a guess; (R6) = C18 (filters complete w.r.t. entry sets at every level) and C11.R1 (merge re-streams every row).", n),
 		notDecided:  "That the walker implements the documented path semantics; that forEachWord/appendFoldedWord equal strings.Fields(strings.ToLower(·)); chunk-window arithmetic in readChunkFrom/heldSection; bloom hashing; gjson's parse. These are value-level and belong to differential testing.",
@@ -709,6 +710,7 @@ func checkC03(w *World, r *Report, tier string) propMeta {
 	c03R4(w, r)
 	c03R6(w, r, "C03.R6")
 	c03R7(w, r, "C03.R7")
+	c03R8(w, r, "C03.R8")
 	c02R1(w, r) // every delivered row is materializeRow of the very bytes scanned in that iteration — never a (shallow) copy of another row
 	c03R5(w, r)
 	return propMeta{
@@ -1397,5 +1399,43 @@ func c03R7(w *World, r *Report, rule string) {
 	}
 	if n == 0 {
 		r.undecided(rule, "sites", "-", "no release of a field-held pooled buffer found (blockFilterCursor.release/readChunkFrom expected)")
+	}
+}
+
+// c03R8: readers agree on what "uncompressed" means.
+func c03R8(w *World, r *Report, rule string) {
+	r.rule(rule, "one meaning of a block's compression on the read side: every comparison of a DataBlockMetadata.Compression value goes through normalizeCompression (the legacy empty value means none) — a reader that tests the raw field takes the other branch than the decoder for legacy blocks, and buffer ownership (who releases the pooled buffer) follows that branch", 2)
+	n := 0
+	for _, fn := range w.Funcs {
+		if !w.ours(fn) || fn.Blocks == nil || baseName(w.name(fn)) == "normalizeCompression" {
+			continue
+		}
+		eachInstr(fn, func(in ssa.Instruction) {
+			b, ok := in.(*ssa.BinOp)
+			if !ok || (b.Op != token.EQL && b.Op != token.NEQ) {
+				return
+			}
+			for _, side := range []ssa.Value{b.X, b.Y} {
+				if w.typeName(side.Type()) != "CompressionType" {
+					continue
+				}
+				owner, field, _, isField := w.structFieldOf(side)
+				viaNormalize := false
+				if c, ok := side.(*ssa.Call); ok && w.isCallTo(&c.Call, "normalizeCompression") {
+					viaNormalize = true
+					if o, f, _, ok := w.structFieldOf(c.Call.Args[0]); ok && o == "DataBlockMetadata" && f == "Compression" {
+						n++
+						r.ok(rule, fmt.Sprintf("%s:normalised-compare#%d", baseName(w.name(fn)), n), w.instrPos(in), "compares normalizeCompression(block.Compression)")
+					}
+				}
+				if isField && owner == "DataBlockMetadata" && field == "Compression" && !viaNormalize {
+					n++
+					r.bad(rule, fmt.Sprintf("%s:raw-compare", baseName(w.name(fn))), w.instrPos(in), baseName(w.name(fn))+" compares a block's raw Compression field: for a legacy block (empty value) it disagrees with decodeBlockRowDataInto, which normalises — the pooled reader then releases a buffer the decoder handed out as row data (released twice, scanned after release)")
+				}
+			}
+		})
+	}
+	if n < 2 {
+		r.undecided(rule, "sites", "-", fmt.Sprintf("expected the decoder's switch and the pooled reader's test on normalizeCompression(block.Compression), found %d", n))
 	}
 }
